@@ -360,7 +360,7 @@ def updateContext (c : Ctx) (m : EditMsg) : Option Ctx :=
   if maxProviders < m.providers.length then none else
   if hasDup m.providers then none else
   if m.timeout < 0 then none else
-  if (if m.thr = 0 then c.thr else m.thr) > (if m.providers.isEmpty then c.providers else m.providers).length then none else
+  if (if m.providers.isEmpty then c.providers else m.providers).length < (if m.thr = 0 then c.thr else m.thr) then none else
   if m.cap ≠ .empty ∧ !capIsBase m.cap then none else
   if maxRequestTimeout < m.timeout then none else
   if (if m.freq = 0 then c.freq else m.freq) < u64OfInt (if m.timeout = 0 then c.timeout else m.timeout) then none else
